@@ -438,6 +438,10 @@ class Check:
             json.dump(ev, f, indent=1, default=str)
         if self.infra and rc == 0:
             for m in self.infra[:5]:
-                print("INFRA: " + m[:2000], file=sys.stderr)
+                print("INFRA: " + (m if len(m) < 6000 else m[:2500] + "\n...\n" + m[-3000:]), file=sys.stderr)
             rc = 2
+        if rc == 0:
+            shutil.rmtree(os.path.join(BUILD, "work", "p%d" % os.getpid()), ignore_errors=True)
+        else:
+            print("scratch files kept under %s" % os.path.join(BUILD, "work", "p%d" % os.getpid()), file=sys.stderr)
         return rc
